@@ -485,6 +485,30 @@ def run_artifact(case):
     return 'artifact|' + ('special' if sp else 'plain'), sp
 
 
+def store_cases():
+    return [{'n': n, 'order': o} for n in (3, 1030, 2100) for o in ('issue-all-then-resolve', 'resolve-previous-after-each-issue')]
+
+
+def run_store(case):
+    """one long-lived entity hands out many artifacts: every artifact still stands for the message it was issued for, whenever it is resolved"""
+    e = _entity()
+    issued = []
+    for i in range(case['n']):
+        msg = '<m xmlns="urn:verif:m" n="%d"/>' % i
+        issued.append((e.use_artifact(msg, i % 10), msg))
+        if case['order'] == 'resolve-previous-after-each-issue' and i:
+            art, want = issued[i - 1]
+            if e.artifact.get(art) != want:
+                raise Violation('artifact-message', 'after %d artifacts were issued, artifact #%d (issued just before the last one) stands for %r instead of %r' % (i + 1, i - 1, e.artifact.get(art), want))
+    if len(set(a for a, m in issued)) != len(issued):
+        raise Violation('artifact-not-unique', 'duplicate artifacts among %d issued ones' % len(issued))
+    for k, (art, want) in enumerate(issued):
+        if e.artifact.get(art) != want:
+            raise Violation('artifact-message', '%d artifacts issued: artifact #%d stands for %r instead of %r' % (len(issued), k, e.artifact.get(art), want))
+    return 'store|%d|%s' % (case['n'], case['order']), case['n'] > 3
+
+
+
 def parts(tier):
     from hypothesis import strategies as st
     quick = tier != 'thorough'
@@ -502,6 +526,7 @@ def parts(tier):
         Part('post', run_post, strategy=case_strategy, examples=8000 * k, mandatory=['post|text|special']),
         Part('soap', run_soap, strategy=soap_cases, examples=6000 * k),
         Part('artifact', run_artifact, strategy=art_cases, examples=2000 * k),
+        Part('artifact-store', run_store, cases=store_cases, exhaustive=True),
     ]
 
 
